@@ -62,6 +62,10 @@ CHECKS = {
          "Every RPC endpoint (found by reflection over the exported RPCAPI types at run time) is called by a trusted and an untrusted remote libp2p peer under Raft, CRDT with explicit list / empty list / trust-all, and after Trust/Distrust at run time; the answer's class (authorization error or not) is judged against rules held as data: untrusted callers reach at most ID/Version/PeerAdd, local-only endpoints are refused to every remote caller, Raft trusts everyone. In the pubsub scenario an untrusted peer's pins must reach a control replica that trusts it while the replica that does not trust it stays without them two rebroadcast rounds later; Trust makes it accept them, Distrust makes it ignore later ones.",
          "Only the authorization class is judged, not success of authorized calls. Newly added endpoints are checked against the untrusted-caller rule only. The local-only list is data derived from the property text. Propagation to the control replica not reached within 30 s = inconclusive.",
          "DESIGN.md §4 C07"),
+ "C01": ("exploration", "runtime history/trace monitor: real multi-peer Raft clusters on real libp2p hosts with connection gaters; versioned journal under each replica's state store, recording tracker, porcupine linearizability check of recorded histories, fault phases (restart, partition + forced snapshot install, shutdown + offline read)",
+         "Concurrent pin/unpin histories with unique write ids are submitted through the Consensus RPCs at any member of real 1-3 peer Raft clusters while the leader is read; per-replica journals (tagged FSM.Apply/FSM.Restore from the call stack) are checked for order compatibility, listings against journal versions, acknowledgements against journal timestamps, content against the fold of the journal, tracker hand-offs against applied changes, and the fault-free history for linearizability (porcupine, per-CID register with delete). Then a member is restarted on its folder, or a running follower is partitioned while the leader commits beyond trailing_logs and snapshots (InstallSnapshot onto a non-empty replica), or all peers are shut down and read offline; replicas must converge to the leader's content and keep every acknowledged write.",
+         "Pins carry no Origins (known C08 finding). Power loss and SIGKILL points are not covered in this revision. 'Caught up' is bounded by 30 s after faults stop. Snapshot/trailing settings are scaled down (3-10 entries) so that log truncation happens within seconds.",
+         "DESIGN.md §4 C01"),
 }
 
 ALL = ["C%02d" % i for i in range(1, 19)]
